@@ -12,6 +12,8 @@ def check(A):
         R.admission_rules(A, fl, 'C12', parts=('defs', 'sinks', 'inert'))
         R.upgrade_header_consistency_rule(A, fl, 'C12')
         S.upgrade_exit_state(A, fl, 'C12')
+        S.upgrade_handshake(A, fl, 'C12')
     R.config_rules(A, 'C12', which=('transports',))
     R.middleware_passthrough_rule(A, 'C12')
     R.driver_environ_rule(A, 'C12')
+    R.get_socket_rule(A, 'C12')
